@@ -85,7 +85,7 @@ def r12a(run):
                           f"{sorted(need - got)}",
                   necessity="a converter that does not read the flag converts identically with and without it: a "
                             "cross-group (or lossy) conversion succeeds under the flag that forbids it")
-    run.floor("R12a", "converters with a flag obligation", n, 19)
+    run.floor("R12a", "converters with a flag obligation", n, 15)
     # every registered converter of the transformer is in the table (a new converter must be classified)
     regs = [m for m in T.methods.values() if any("registry.register" in unparse(d) for d in m.node.decorator_list)]
     unknown = [m.name for m in regs if m.name not in REQUIRED and m.name not in ("to_type", "to_callable")]
@@ -352,7 +352,7 @@ def r12c(run):
                       message=f"transform_dataclass: `{norm_stmt(n.stmt)}` looks at an element of the list before the "
                               f"`no_data_loss and len > 1` rejection",
                       necessity="[alice, bob] returns alice when the first element already is an instance", node=n.ast)
-    run.floor("R12c", "lossy operations checked", total, 10)
+    run.floor("R12c", "lossy operations checked", total, 7)
 
 
 def r12d(run):
